@@ -261,6 +261,7 @@ func (g reentrantGlobal) GoString() string {
 	}
 	return "reentrant-global"
 }
+
 const recTmpl = "/zrec.jet"
 const recDepth = 60 // two clients at this depth have more than a hundred activations of one include statement in flight
 
@@ -292,12 +293,30 @@ func RunC11(env *sim.Env) {
 	w.files["/zcomp.jet"] = `<{{include nm}}>`
 	w.files["/zca.jet"], w.files["/zcb.jet"] = "[comp-a]", "[comp-b]"
 	w.files[recTmpl] = `[{{.}}{{if . > 0}}{{include "/zrec.jet" dec(.)}}{{end}}]`
+	if t.Choose(2) == 1 {
+		// a layout, a page that extends it and imports a library of blocks without defining any itself,
+		// and a sibling page: whoever loads the page first, the layout and the sibling keep their own blocks
+		w.files["/zlay.jet"] = `{{block side()}}default-side{{end}}|{{block body()}}default-body{{end}}`
+		w.files["/zwidgets.jet"] = `{{block side()}}widget-side{{end}}{{block extra()}}widget-extra{{end}}`
+		w.files["/zpage.jet"] = `{{extends "/zlay.jet"}}{{import "/zwidgets.jet"}}`
+		w.files["/zsib.jet"] = `{{extends "/zlay.jet"}}{{block body()}}sib-body{{end}}`
+		w.stable = append(w.stable, "/zlay.jet", "/zpage.jet", "/zsib.jet")
+		env.Stat("probe:layout_page_with_import_and_no_own_block_sibling", 1)
+	}
 	w.files["/v0.jet"] = "[v0#1]"
 	w.files["/v1.jet"] = "[v1#1]{{include \"/v0.jet\"}}"
 	w.datas = []gen.DataSpec{gen.GenData(t, 1), gen.GenData(t, 2)}
 	for i := range w.datas {
 		w.datas[i].Big = 0
 	}
+	// one template is executed without data: a Runtime that an execution with data has released must not
+	// lend its '.' to it
+	const nilDataTmpl = "/znil.jet"
+	w.files[nilDataTmpl] = `<ctx:{{ isset(.Names) ? "somebody's" : "none" }}{{ isset(.) ? "!" : "" }}>`
+	w.stable = append(w.stable, nilDataTmpl)
+	nilData := w.datas[0]
+	nilData.Nil = true
+	w.datas = append(w.datas, nilData)
 	nClients := t.Range(2, 4)
 	useLockedCache := t.Choose(3) == 2
 	devMode := t.Choose(6) == 5
@@ -345,6 +364,9 @@ func RunC11(env *sim.Env) {
 	}
 	for _, name := range w.stable {
 		for di, d := range w.datas {
+			if d.Nil != (name == nilDataTmpl) {
+				continue
+			}
 			for at := 0; at <= 6; at++ {
 				if at > 0 && at <= 3 && !withFaults {
 					continue
@@ -370,6 +392,9 @@ func RunC11(env *sim.Env) {
 	w.files["/v0const.jet"] = "<const:{{.Name}}>"
 	for name, src := range w.parseSrc {
 		for di, d := range w.datas {
+			if d.Nil {
+				continue
+			}
 			set := jet.NewSet(newLoader())
 			if r, ok := aloneExec(set, name, d, src, 0); ok {
 				w.alone[fmt.Sprintf("%s|%d|0", name, di)] = r
